@@ -758,6 +758,16 @@ impl AutosarModel {
             filemap.insert(filename, new_file.downgrade());
         }
 
+        // the root element itself is not copied, so its comment and attributes must be transferred
+        if !filemap.is_empty() {
+            let orig_root = self.root_element();
+            let copy_root = copy.root_element();
+            copy_root.set_comment(orig_root.comment());
+            for attribute in orig_root.attributes() {
+                let _ = copy_root.set_attribute(attribute.attrname, attribute.content);
+            }
+        }
+
         // by inserting copies of the sub elements of <AUTOSAR>, we automatically
         // get up-to-date identifiables and reference_origins
         for element in self.root_element().sub_elements() {
